@@ -235,20 +235,22 @@ G = {"ADD": 0, "MUL": 1, "SUB": 2, "NEG": 3, "SCALE": 4, "UMUL": 5, "UNTRACK": 6
 MODES = {0: "seed", 1: "default", 2: "twice", 3: "clear+ones", 4: "mid-then-root"}
 
 
-def graph_inst(tag, nodes, nl=2, tracked=None, root=None, mode=0, mid=0, dims=(1,), prop="C01"):
+def graph_inst(tag, nodes, nl=2, tracked=None, root=None, mode=0, mid=0, dims=(1,), prop="C01", conc=0):
     tracked = tracked if tracked is not None else [True] * nl
     total = nl + len(nodes)
     root = total - 1 if root is None else root
-    name = "g_%s__t%s__r%d__m%d%s" % (tag, "".join("1" if t else "0" for t in tracked), root, mode,
-                                      "" if tuple(dims) == (1,) else "__d" + dn(dims))
+    name = "g_%s__t%s__r%d__m%d%s%s" % (tag, "".join("1" if t else "0" for t in tracked), root, mode,
+                                        "" if tuple(dims) == (1,) else "__d" + dn(dims), "" if conc == 0 else "__conc%d" % conc)
     ns = ", ".join("(%d, %d, %d)" % (G[o], i, j) for (o, i, j) in nodes)
-    src = "graph_instance!(%s, %d, [%s], %d, [%s], [%s], %d, %d, %d);" % (
-        name, max(12, prod(dims) + total + 6), lit(dims), nl, ", ".join("true" if t else "false" for t in tracked), ns, root, mode, mid)
+    src = "graph_instance!(%s, %d, [%s], %d, [%s], [%s], %d, %d, %d, %d);" % (
+        name, max(12, prod(dims) + total + 6), lit(dims), nl, ", ".join("true" if t else "false" for t in tracked), ns, root, mode, mid, conc)
     return Instance(name, src, function="Array::backward / propagate_consumers",
                     contract="backward contract on one graph class: C01 gradients = forward-mode derivative, C03 dims, C08 frame, "
                              "C09 flags/untracked, C10 Clean + additivity, C11 one invocation with complete adjoint",
-                    bounds="graph %s over %d leaves (tracked=%s), root node %d, pass mode %s, array dims %s; values and seed symbolic in [-4,4]"
-                           % (nodes, nl, tracked, root, MODES[mode], list(dims)),
+                    bounds="graph %s over %d leaves (tracked=%s), root node %d, pass mode %s, array dims %s; %s"
+                           % (nodes, nl, tracked, root, MODES[mode], list(dims),
+                              "values and seed symbolic in [-4,4]" if conc == 0 else
+                              "CONCRETE special values (zeros included) and %s seed" % ("all-zero" if conc == 1 else "masked")),
                     descr="graph " + tag, timeout=900)
 
 
@@ -284,7 +286,8 @@ def _rand_graphs(seed, count, n_nodes, ops=("ADD", "MUL", "SUB", "UMUL", "NEG", 
 
 def c01_instances(tier):
     gi = graph_inst
-    I = [gi("one_mul", GRAPHS["one_mul"], dims=(2,)), gi("diamond", GRAPHS["diamond"]), gi("selfprod3", GRAPHS["selfprod3"], mode=1),
+    I = [gi("one_mul", GRAPHS["one_mul"], dims=(2,)), gi("diamond", GRAPHS["diamond"], dims=(2,), conc=2), gi("diamond", GRAPHS["diamond"]),
+         gi("selfprod3", GRAPHS["selfprod3"], mode=1),
          gi("shared", GRAPHS["shared"], tracked=[True, False]), gi("user_chain", GRAPHS["user_chain"]),
          multiuse_inst([2, 2], [2], 4)]
     if tier == "thorough":
@@ -305,7 +308,7 @@ def c01_instances(tier):
 def c10_instances(tier):
     gi = graph_inst
     I = [gi("diamond", GRAPHS["diamond"], mode=2), gi("diamond", GRAPHS["diamond"], mode=4, mid=2),
-         gi("shared", GRAPHS["shared"], mode=3), gi("mul_add", GRAPHS["mul_add"], mode=2)]
+         gi("shared", GRAPHS["shared"], mode=3), gi("mul_add", GRAPHS["mul_add"], mode=2), gi("diamond", GRAPHS["diamond"], mode=2, dims=(2,), conc=1)]
     if tier == "thorough":
         for tag in ("chain", "selfprod3", "user_diamond", "untracked_mid", "clone"):
             I.append(gi(tag, GRAPHS[tag], mode=2))
@@ -339,7 +342,8 @@ def c11_instances(tier):
 def c17_instances(tier):
     gi = graph_inst
     I = [gi("diamond", GRAPHS["diamond"], mode=3), gi("selfprod3", GRAPHS["selfprod3"], mode=0, dims=(2,)),
-         gi("scale_sub", GRAPHS["scale_sub"], mode=3), gi("one_mul", GRAPHS["one_mul"], mode=0, dims=(2,)), gi("mul_add", GRAPHS["mul_add"], mode=0)]
+         gi("scale_sub", GRAPHS["scale_sub"], mode=3), gi("one_mul", GRAPHS["one_mul"], mode=0, dims=(2,)), gi("mul_add", GRAPHS["mul_add"], mode=0),
+         gi("diamond", GRAPHS["diamond"], dims=(2,), conc=1), gi("shared", GRAPHS["shared"], dims=(2,), conc=2)]
     if tier == "thorough":
         for tag in ("chain", "shared", "user_diamond", "untracked_mid", "clone", "user_chain"):
             I.append(gi(tag, GRAPHS[tag], mode=3))
@@ -681,7 +685,8 @@ def c18_instances(tier):
                              "gradients are independent arrays; Vec::from(leaf) succeeds",
                              "program c=a*b; d=c+a; e=... (variant 4: e=relu(a*b)); passes per variant %d; [2] arrays" % v, unwind=12, timeout=2400, mem_gb=24))
     # the "no pending value / count remains" half on tiny graph classes (drop stub; Clean(G) after the pass for every value incl. zero adjoints)
-    I += [graph_inst("mul_add", GRAPHS["mul_add"], mode=0), graph_inst("one_mul", GRAPHS["one_mul"], mode=2, dims=(2,))]
+    I += [graph_inst("mul_add", GRAPHS["mul_add"], mode=0), graph_inst("diamond", GRAPHS["diamond"], dims=(2,), conc=1),
+          graph_inst("diamond", GRAPHS["diamond"], mode=2, dims=(2,), conc=2)]
     return I
 
 
